@@ -8,6 +8,7 @@ from .common import Check, OracleFailure, SymEnv, RealEnv, both, scratch_file, e
 from .model import sym_bins, bins_frame, real_widths
 
 NEW = {"c0": "chromosome_zero_long", "c1": "x", "c2": "c0"}  # longer, shorter, and a name another chromosome used to have
+SWAP = {"c0": "c1", "c1": "c0", "c2": "q"}                   # a simultaneous swap: new names equal other chromosomes' old names
 
 
 def _raw(env, path):
@@ -55,7 +56,9 @@ def rename_body(env, p):
         mapping = {}
         for i in range(nch):
             if bool(flags[i]):
-                mapping[cur[i]] = NEW[names[i]] + ("_2" if step else "")
+                mapping[cur[i]] = (SWAP if p.get("swap") else NEW)[names[i]] + ("_2" if step else "")
+        if p.get("swap") and p.get("reverse_order"):
+            mapping = dict(reversed(list(mapping.items())))
         new = [mapping.get(x, x) for x in cur]
         if len(set(new)) != len(new):
             env.assume(False)  # duplicate names are not a renaming
@@ -98,7 +101,8 @@ rename_sym, rename_real = both(rename_body)
 
 CHECKS = [
     Check("rename", lambda tier: [dict(layout=l, K=K, steps=s, enum=e) for l, K, s in ([([2, 1], 2, 1), ([1, 1, 1], 1, 2)] if tier == "quick" else
-                                                                                       [([2, 1], 2, 1), ([1, 1, 1], 2, 2), ([2, 2], 3, 2)]) for e in (True, False)],
+                                                                                       [([2, 1], 2, 1), ([1, 1, 1], 2, 2), ([2, 2], 3, 2)]) for e in (True, False)]
+          + [dict(layout=[1, 1, 1], K=1, steps=1, enum=True, swap=True), dict(layout=[1, 1], K=1, steps=1, enum=False, swap=True, reverse_order=True)],
           rename_sym, rename_real, labels=("partial_map",),
           doc="rename_chroms with every subset of chromosomes renamed (longer, shorter, recycled names), chains of 2 renamings, enum and integer "
               "chromosome encodings, symbolic table contents: names substituted in order on the same object and after reopening; raw lengths, bins, "
